@@ -103,6 +103,11 @@ def plan(tier):
         for cfg in _cfgs('S3', seq, 0, tier)[:1]:
             cfg.update(pgrid='zero', ndates=4, tail_next=2)
             tasks.append(dict(harness='ops', cfg=cfg, opts=opts))
+    # three levels (root -> mid -> leaf -> a, built bottom-up): trades at the deepest node, observed straight away and after a date change
+    for seq in ((['transact', 'a', 'mid/leaf'], ['read']), (['transact', 'a', 'mid/leaf'], ['next']), (['next'], ['transact', 'a', 'mid/leaf']),
+                (['transact', 'a', 'mid/leaf'], ['adjust']), (['alloc', 'a', 'mid/leaf'], ['read']), (['transact', 'a', 'mid/leaf'], ['transact', 'c'])):
+        for cfg in _cfgs('S5', seq, 0, tier)[:1]:
+            tasks.append(dict(harness='ops', cfg=cfg, opts=opts))
     # cash-only sub-strategy, no costs: capital moved between nodes changes cash rows but no value (second operation on a date)
     for seq in ((['adjust'], ['alloc', 'sub']), (['alloc', 'sub'], ['alloc', 'sub']), (['alloc', 'sub'], ['next']), (['adjust'], ['alloc', 'a', 'sub']),
                 (['alloc', 'sub'], ['close', 'sub']), (['next'], ['alloc', 'sub'])):
